@@ -20,6 +20,8 @@ func init() {
 	reg("C19", "C19.R2", "E6", "no raw event string spliced into a framed buffer", 1, ruleRawSplice)
 	reg("C19", "C19.R3", "E7", "split-and-resend halves partition [left, right)", 2, ruleSplitPartition)
 	reg("C19", "C19.R4", "E2", "Kafka: one record slot per callback, produced slice is messages[:i]", 1, ruleKafkaRecords)
+	reg("C19", "C19.R6", "E2", "a JSON root re-used across the events of a batch is reset in every iteration", 1, ruleScratchRootReset)
+	reg("C19", "C19.R7", "E6", "payload buffers are only appended to, emptied, or shortened by a constant from their own end", 7, rulePayloadOnlyGrows)
 	reg("C19", "C19.R5", "E2", "Batch.ForEach visits every event except split parents, in order", 1, ruleForEachShape)
 }
 
@@ -576,4 +578,158 @@ func ruleForEachShape(c *Ctx, r *Rule) {
 		}
 		r.Ob(okOr, nm+"|flag-accumulates", a.in.Pos(), "hasIterableEvents = hasIterableEvents || !event.IsChildParentKind(): once a deliverable event is in the batch the flag stays true (otherwise a batch that ends with a split parent is committed without being sent): "+c.path(a.val))
 	}
+}
+
+// rulePayloadOnlyGrows: a payload buffer under construction is only appended to, emptied, or
+// shortened by a constant counted from its own end (the quote-stripping idiom). A cut at a
+// position computed from elsewhere can land inside an escape sequence or a frame.
+func rulePayloadOnlyGrows(c *Ctx, r *Rule) {
+	n := 0
+	for _, fn := range c.ModFuncs {
+		if !strings.HasPrefix(c.pkgOf(fn), "plugin/output/") {
+			continue
+		}
+		for _, b := range fn.Blocks {
+			for _, in := range b.Instrs {
+				sl, ok := in.(*ssa.Slice)
+				if !ok || sl.Low != nil || sl.High == nil {
+					continue
+				}
+				st, isSl := sl.X.Type().Underlying().(*types.Slice)
+				if !isSl {
+					continue
+				}
+				if bt, isB := st.Elem().Underlying().(*types.Basic); !isB || bt.Kind() != types.Byte {
+					continue
+				}
+				// does the shortened value go on as a buffer (append destination, returned, stored)?
+				goesOn := false
+				if refs := sl.Referrers(); refs != nil {
+					for _, rf := range *refs {
+						switch x := rf.(type) {
+						case *ssa.Return:
+							goesOn = true
+						case *ssa.Store:
+							if x.Val == ssa.Value(sl) {
+								goesOn = true
+							}
+						case *ssa.Phi:
+							goesOn = true
+						case *ssa.Call:
+							if bi, isBi := x.Call.Value.(*ssa.Builtin); isBi && bi.Name() == "append" && x.Call.Args[0] == ssa.Value(sl) {
+								goesOn = true
+							} else if len(x.Call.Args) > 0 {
+								for _, a := range x.Call.Args {
+									if a == ssa.Value(sl) {
+										if f := x.Call.StaticCallee(); f != nil && (strings.HasPrefix(f.Name(), "append") || strings.HasPrefix(f.Name(), "Append") || strings.HasPrefix(f.Name(), "Encode")) {
+											goesOn = true
+										}
+									}
+								}
+							}
+						}
+					}
+				}
+				if !goesOn {
+					continue
+				}
+				n++
+				r.Inst(1)
+				okHigh := false
+				if k, isK := constInt(sl.High); isK && k == 0 {
+					okHigh = true
+				}
+				f := lin(sl.High)
+				if !okHigh && f.k <= 0 && len(f.t) == 1 {
+					for key, cnt := range f.t {
+						if key.isLen && cnt == 1 && (key.v == sl.X || sameValue(key.v, sl.X)) {
+							okHigh = true
+						}
+					}
+				}
+				r.Ob(okHigh, fmt.Sprintf("%s|shorten#%d", c.fnName(fn), n), sl.Pos(), "a payload buffer is shortened only to empty or by a constant counted from its own end; cut at "+c.linString(f))
+			}
+		}
+	}
+	r.Ob(n >= 7, "plugin/output|buffer-resets", token.NoPos, fmt.Sprintf("%d places where an output buffer is emptied or shortened", n))
+}
+
+// ruleScratchRootReset: a JSON root that an output re-uses for every event of a batch (created outside
+// the per-event callback, filled and encoded inside it) is reset inside the callback on every path,
+// so that nothing of one event's envelope is left for the next.
+func ruleScratchRootReset(c *Ctx, r *Rule) {
+	n := 0
+	for _, fn := range c.ModFuncs {
+		if !strings.HasPrefix(c.pkgOf(fn), "plugin/output/") || fn.Parent() == nil {
+			continue
+		}
+		for _, fv := range fn.FreeVars {
+			// captured *insaneJSON.Root (possibly through the variable's cell)
+			t := fv.Type()
+			if p, isP := t.(*types.Pointer); isP {
+				if _, isPP := p.Elem().(*types.Pointer); isPP {
+					t = p.Elem()
+				}
+			}
+			nn := namedOf(deref(t))
+			if nn == nil || nn.Obj().Name() != "Root" || nn.Obj().Pkg() == nil || nn.Obj().Pkg().Path() != insanePkg {
+				continue
+			}
+			// values of the root inside the closure
+			isRoot := func(v ssa.Value) bool {
+				for d := 0; d < 4; d++ {
+					if v == ssa.Value(fv) {
+						return true
+					}
+					switch x := v.(type) {
+					case *ssa.UnOp:
+						v = x.X
+					case *ssa.FieldAddr:
+						v = x.X
+					default:
+						return false
+					}
+				}
+				return false
+			}
+			mutated, encoded := false, false
+			isReset := func(in ssa.Instruction) bool {
+				ci, ok := in.(ssa.CallInstruction)
+				if !ok {
+					return false
+				}
+				f := calleeFunc(ci)
+				if f == nil || !strings.HasPrefix(f.Name(), "Decode") || len(ci.Common().Args) == 0 {
+					return false
+				}
+				return isRoot(ci.Common().Args[0])
+			}
+			for _, ci := range callsIn(fn) {
+				f := calleeFunc(ci)
+				if f == nil {
+					continue
+				}
+				for i, a := range ci.Common().Args {
+					if !isRoot(a) {
+						continue
+					}
+					nm := f.Name()
+					if strings.HasPrefix(nm, "Encode") && i == 0 {
+						encoded = true
+					}
+					if strings.HasPrefix(nm, "AddField") || strings.HasPrefix(nm, "MutateTo") || strings.HasPrefix(nm, "CreateNestedField") || strings.HasPrefix(nm, "Merge") {
+						mutated = true
+					}
+				}
+			}
+			if !mutated || !encoded {
+				continue
+			}
+			n++
+			r.Inst(1)
+			leak, _ := c.pathExists(fn, nil, isReturn, isReset)
+			r.Ob(!leak, fmt.Sprintf("%s|scratch-root-reset#%d", c.fnName(fn), n), fn.Pos(), "the JSON root re-used for every event of the batch is reset (re-decoded) on every path of the per-event callback: an envelope describes only its own event")
+		}
+	}
+	r.Ob(n >= 1, "plugin/output|scratch-roots", token.NoPos, fmt.Sprintf("%d per-event callbacks fill and encode a re-used JSON root", n))
 }
